@@ -8,6 +8,7 @@ import (
 	"go/ast"
 	"go/token"
 	"go/types"
+	"sort"
 )
 
 func init() { register("C13", false, checkC13) }
@@ -46,23 +47,39 @@ func (a *c13) exactCrossing() {
 	c := a.c
 	info := a.info
 	pk := c.P.Pkg("geom")
-	// the routine: a repo function returning (int, Point, Point) called from a function that the curve simplifier calls
+	// the routines: everything the simplicity test reaches inside the package (the crossing test and
+	// its helpers, whatever their signatures)
 	ptT := c.P.NamedType("geom", "Point")
-	var routines []*types.Func
-	for _, fn := range c.P.RepoFuncs() {
-		if c.P.DeclPkg(fn) != pk {
-			continue
-		}
-		sig := fn.Type().(*types.Signature)
-		if sig.Results().Len() == 3 && types.Identical(sig.Results().At(1).Type(), ptT) && types.Identical(sig.Results().At(2).Type(), ptT) {
-			if b, ok := sig.Results().At(0).Type().Underlying().(*types.Basic); ok && b.Info()&types.IsInteger != 0 {
-				routines = append(routines, fn)
-			}
-		}
+	simple := c.P.Func("geom", "segMakesNotSimple")
+	if simple == nil && ptT != nil {
+		simple = c13simplicityByShape(c, ptT)
 	}
-	if len(routines) == 0 {
-		c.Unk("C13.R6", "geom#segment-intersection", token.NoPos, "no (count, Point, Point) intersection routine found")
+	if simple == nil || c.P.Decl(simple) == nil {
+		c.Unk("C13.R6", "geom#segment-intersection", token.NoPos, "the simplicity test (a bool function of a segment and of paths) was not found")
 		return
+	}
+	var routines []*types.Func
+	seen := map[*types.Func]bool{simple: true}
+	frontier := []*types.Func{simple}
+	for len(frontier) > 0 {
+		f := frontier[0]
+		frontier = frontier[1:]
+		if f != simple {
+			routines = append(routines, f)
+		}
+		ast.Inspect(c.P.Decl(f).Body, func(n ast.Node) bool {
+			if call, ok := n.(*ast.CallExpr); ok {
+				if g := callee(info, call); g != nil && !seen[g] && c.P.Decl(g) != nil && c.P.DeclPkg(g) == pk {
+					seen[g] = true
+					frontier = append(frontier, g)
+				}
+			}
+			return true
+		})
+	}
+	sort.Slice(routines, func(i, j int) bool { return c.P.FuncName(routines[i]) < c.P.FuncName(routines[j]) })
+	if len(routines) == 0 {
+		routines = []*types.Func{simple}
 	}
 	for _, fn := range routines {
 		fd := c.P.Decl(fn)
